@@ -119,8 +119,11 @@ func numsOf(subs []submission) []sexp.Node {
 			for _, p := range s.HTTP.Params {
 				numTokens(p[1], m, &order)
 			}
-		} else if s.WS.Payload != nil {
-			numTokens(*s.WS.Payload, m, &order)
+		} else {
+			numTokens(s.WS.Raw, m, &order)
+			if s.WS.Payload != nil {
+				numTokens(*s.WS.Payload, m, &order)
+			}
 		}
 	}
 	out := make([]sexp.Node, 0, len(order))
